@@ -19,6 +19,17 @@
  *      every request must have been handed back after ZSTD_freeCCtx.  The protocol trace is cut (`abort`) at the instant the fault fires; in addition
  *          efin <j> <before> <after>    the worker of the FAILED job j went through ZSTDMT_serialState_ensureFinished: serial.nextJobID at lock / at unlock
  *      end <ok|FAIL ...> frames=<n> in= out= fault=<0|1> res=<ok|error name of the faulted frame> allocs=<all>/<workers>/<caller>
+ * op:  mth <workers> <id=val,...|-> <seed> <hrel> <where 0|1> <holdMaxUs> <in-chunks csv> <out-caps csv> <perturb> <pseed> <T> <R> <y per-mille> <extraSections>
+ *      a worker is HELD (nothing is refused) while the caller goes on until it has to wrap the round input buffer.  Geometry read from the context after its
+ *      initialisation: S = section size, P = overlap, K = whole sections the round buffer holds (the input of section K needs the wrap).  The worker of job
+ *      h = K - workers + <hrel> is parked where it asks for its serial turn (where 0) or, inside its serial turn, where it is about to publish the window of the
+ *      long-distance matcher (where 1), until the caller waits for that window (ZSTDMT_waitForLdmComplete), or has consumed K+1 sections, or <holdMaxUs>.
+ *      Input: incompressible bytes; the job that takes the next long-distance-matching turn after the release (h + where) contains, at y/1000 of its first half,
+ *      [last T bytes of section K-1][R bytes copied from offset P] (a match found at offset P extends backwards into the bytes the wrap relocates) and, half a
+ *      section further, [last T bytes of section K][R bytes copied from offset P+S] (same for the first section loaded after the wrap).
+ *      One frame; must decode to the input (one-pass decoder and streaming decoder limited to the declared window).  The flag the parked worker polls is
+ *      read / written with relaxed atomics only: it orders nothing, so ThreadSanitizer sees the caller's writes and the worker's reads as the library orders them.
+ *      end <ok|FAIL ...> frames=<n> in= out= hold=<h> where= rel=<none|ldmwait|fed|timeout> K= S= P=
  * perturb (5 = jobs reach the serial section in reversed order within each group of three): 0 none, 1 random yields / sleeps before every primitive, 2 worker W0 is slow, 3 the caller is slow, 4 the serial section is slow. */
 #define _GNU_SOURCE
 #include <stdio.h>
@@ -88,9 +99,21 @@ static int g_turnAfterEfin;    /* a job that did not fail went through the seria
 static void hold_turn(void) { unsigned waited = 0; t_held = 1; while (!__atomic_load_n(&g_efinDone, __ATOMIC_ACQUIRE) && waited < g_dUs) { nap(200); waited += 200; }
     /* then let a younger job take its turn first (a quarter of the limit at most): the held job finds the counter beyond its own id */
     if (__atomic_load_n(&g_efinDone, __ATOMIC_ACQUIRE)) { waited = 0; while (!__atomic_load_n(&g_turnAfterEfin, __ATOMIC_ACQUIRE) && waited < g_dUs / 4) { nap(200); waited += 200; } } }
+/* op mth: the worker of job g_dJob is held (where 0: before it asks for the serial mutex; where 1: inside its serial turn, before it publishes the window of the
+ * long-distance matcher) until the caller waits on serial.ldmWindowCond, or has consumed g_hFedLimit bytes, or g_dUs microseconds.  Relaxed atomics: no ordering. */
+static int g_holdWrap, g_hWhere, g_callerLdmWait, g_hRel, g_jobsEnded; static __thread int t_pre; static unsigned long long g_fed, g_hFedLimit;
+static void hold_wrap(void) { unsigned waited = 0; int why = 3; t_held = 1;
+    while (waited < g_dUs) { if (__atomic_load_n(&g_callerLdmWait, __ATOMIC_RELAXED)) { why = 1; break; } if (__atomic_load_n(&g_fed, __ATOMIC_RELAXED) >= g_hFedLimit) { why = 2; break; } nap(500); waited += 500; }
+    nap(2000); __atomic_store_n(&g_hRel, why, __ATOMIC_RELAXED); }
 static void nap(unsigned us) { struct timespec ts; ts.tv_sec = us / 1000000; ts.tv_nsec = (long)(us % 1000000) * 1000; nanosleep(&ts, NULL); }
 static void perturb(int where, pthread_mutex_t* m) {   /* where: 0 before lock, 1 before unlock */
     serialState_t* const sr = __atomic_load_n(&g_serial, __ATOMIC_ACQUIRE);
+    if (g_holdWrap) { int const dj = (where == 0 && t_worker >= 0 && t_job && !t_held && sr) ? __atomic_load_n(&g_dJob, __ATOMIC_ACQUIRE) : -1;   /* set once, before the first byte of input is handed over */
+        if (dj >= 0 && t_jobID == (unsigned)dj) {
+            /* where 1 keeps the serial mutex while parked, and every job takes that mutex once more when it ends: the older jobs are let to end first */
+            if (g_hWhere && m == &sr->mutex && !t_pre) { unsigned waited = 0; t_pre = 1; while (__atomic_load_n(&g_jobsEnded, __ATOMIC_RELAXED) < dj && waited < g_dUs) { nap(500); waited += 500; } }
+            else if (m == (g_hWhere ? &sr->ldmWindowMutex : &sr->mutex)) hold_wrap(); } }
+    else
     if (g_dJob >= 0 && where == 0 && t_worker >= 0 && t_job && !t_held && t_jobID == (unsigned)g_dJob && sr && m == &sr->mutex && !ZSTD_isError(((ZSTDMT_jobDescription*)t_job)->cSize)) hold_turn();
     if (g_perturb == 1) { t_rng = t_rng * 1103515245u + 12345u; switch ((t_rng >> 16) & 7) { case 0: sched_yield(); break; case 1: nap((t_rng >> 20) & 255); break; case 2: nap(((t_rng >> 20) & 15) * 100); break; default: break; } }
     else if (g_perturb == 2) { if (t_worker == 0 && where == 1) nap(3000); }
@@ -127,7 +150,7 @@ static POOL_function g_realJob;
 #define SERIAL() __atomic_load_n(&g_serial, __ATOMIC_ACQUIRE)
 static void zv_jobfn(void* arg) { POOL_function f = __atomic_load_n(&g_realJob, __ATOMIC_ACQUIRE); ZSTDMT_jobDescription* job = (ZSTDMT_jobDescription*)arg;
     ZSTDMT_CCtx* mt = (ZSTDMT_CCtx*)((char*)job->serial - offsetof(ZSTDMT_CCtx, serial));
-    t_jobID = job->jobID; t_stall = (job->jobID > 0 && job->prefix.size > 0 && job->prefix.start == (const void*)mt->roundBuff.buffer) ? 1 : 0; t_job = job; t_jobAllocs = 0; t_held = 0; f(arg); t_job = NULL; }
+    t_jobID = job->jobID; t_stall = (job->jobID > 0 && job->prefix.size > 0 && job->prefix.start == (const void*)mt->roundBuff.buffer) ? 1 : 0; t_job = job; t_jobAllocs = 0; t_held = 0; t_pre = 0; f(arg); t_job = NULL; __atomic_fetch_add(&g_jobsEnded, 1, __ATOMIC_RELAXED); }
 static int zv_signal(pthread_cond_t* c) { serialState_t* sr = SERIAL(); if (sr && c == &sr->cond && t_serialWake < 1) t_serialWake = 1; return pthread_cond_signal(c); }
 static int zv_broadcast(pthread_cond_t* c) { serialState_t* sr = SERIAL(); if (sr && c == &sr->cond) t_serialWake = 2; return pthread_cond_broadcast(c); }
 static int zv_tryAdd(POOL_ctx* ctx, POOL_function fn, void* arg) {
@@ -171,7 +194,9 @@ static int zv_unlock(pthread_mutex_t* m) { int r; serialState_t* const sr = __at
       if (efin) __atomic_store_n(&g_efinDone, 1, __ATOMIC_RELEASE); else if (ser && __atomic_load_n(&g_efinDone, __ATOMIC_ACQUIRE)) __atomic_store_n(&g_turnAfterEfin, 1, __ATOMIC_RELEASE); }
     if (g_perturb == 6 && t_stall == 1 && sr && m == &sr->mutex) { t_stall = 0; nap(400000); }      /* serial turn over, compression of the job not started yet */
     return r; }
-static int zv_wait(pthread_cond_t* c, pthread_mutex_t* m) { int r; on_release(m); r = pthread_cond_wait(c, m);
+static int zv_wait(pthread_cond_t* c, pthread_mutex_t* m) { int r; on_release(m);
+    if (g_holdWrap && t_worker < 0) { serialState_t* const sr = SERIAL(); if (sr && c == &sr->ldmWindowCond) __atomic_store_n(&g_callerLdmWait, 1, __ATOMIC_RELAXED); }     /* the caller is about to sleep in ZSTDMT_waitForLdmComplete */
+    r = pthread_cond_wait(c, m);
 #ifndef ZV_NOTRACE
     if (t_worker < 0 && g_mt && job_of_mutex(m)) caller_sync();
 #endif
@@ -201,6 +226,22 @@ static void zv_free(void* opaque, void* p) { (void)opaque; if (p) __atomic_fetch
 #define LIVE() __atomic_load_n(&g_live, __ATOMIC_SEQ_CST)
 static int roundtrip(const unsigned char* src, size_t n, const unsigned char* dst, size_t out, unsigned char* back) {
     size_t const dr = ZSTD_decompress(back, n, dst, out); return !(ZSTD_isError(dr) || dr != n || memcmp(back, src, n)); }
+
+/* streaming decoder limited to exactly the window the frame header declares, small pieces; 0 = fine, else message in msg */
+static int roundtrip_declared(const unsigned char* src, size_t n, const unsigned char* dst, size_t out, unsigned char* back, char* msg, size_t msgCap) {
+    ZSTD_frameHeader fh; if (out <= 18 || ZSTD_getFrameHeader(&fh, dst, out) != 0 || fh.windowSize < 1024 || fh.windowSize > (1u << 27)) return 0;
+    {   ZSTD_DCtx* d = ZSTD_createDCtx(); size_t ipos = 0, opos = 0, r = 1; int guard = 0, bad;
+        ZSTD_DCtx_setMaxWindowSize(d, (size_t)fh.windowSize);
+        while (ipos < out && !ZSTD_isError(r) && guard++ < 10000000) { ZSTD_inBuffer ib; ZSTD_outBuffer ob; size_t const chunk = out - ipos < 60000 ? out - ipos : 60000;
+            ib.src = dst + ipos; ib.size = chunk; ib.pos = 0; ob.dst = back + opos; ob.size = (n - opos) < 50000 ? (n - opos) : 50000; ob.pos = 0;
+            r = ZSTD_decompressStream(d, &ob, &ib); ipos += ib.pos; opos += ob.pos; if (!ZSTD_isError(r) && ib.pos == 0 && ob.pos == 0) break; }
+        bad = ZSTD_isError(r) || opos != n || memcmp(back, src, n);
+        if (bad) snprintf(msg, msgCap, "FAIL round trip inside the declared window (%u bytes): %s", (unsigned)fh.windowSize, ZSTD_isError(r) ? ZSTD_getErrorName(r) : "bytes differ");
+        ZSTD_freeDCtx(d); return bad; } }
+/* [last T bytes before tailEnd][R bytes from `from`] written so that the copy starts at `at` */
+static void plant(unsigned char* p, size_t n, size_t at, size_t tailEnd, size_t T, size_t from, size_t R) {
+    if (at < T || at + R > n || tailEnd < T || tailEnd > n || from + R > n) return;
+    memcpy(p + at - T, p + tailEnd - T, T); memcpy(p + at, p + from, R); }
 
 /* ---- data ---- */
 static unsigned long long rs;
@@ -339,6 +380,55 @@ int main(void) {
             g_fWho = -1; g_dJob = -1; g_patient = 0;
             if (g_buf) fputs(g_buf, stdout);
             printf("end %s frames=%d in=%llu out=%llu fault=%d res=%s allocs=%ld/%ld/%ld\n", verdict, doneFrames, totIn, totOut, FIRED(), res, nA, nW, nC);
+            free(src); free(dst); free(back);
+        } else if (!strcmp(op, "mth")) {
+            int workers = atoi(strtok(NULL, " ")); char* spec = strtok(NULL, " "); unsigned long long seed = strtoull(strtok(NULL, " "), NULL, 10); int hrel = atoi(strtok(NULL, " ")); int where = atoi(strtok(NULL, " ")); unsigned holdUs = (unsigned)strtoul(strtok(NULL, " "), NULL, 10);
+            size_t ic[32], oc[32]; size_t ni = csv(strtok(NULL, " "), ic, 32), no = csv(strtok(NULL, " "), oc, 32); const char* verdict = "ok"; char vbuf[200]; size_t T, R, ypm, extra, n = 0, cap = 0, S = 0, P = 0, K = 0; int h = -1;
+            unsigned char* src = NULL; unsigned char* dst = NULL; unsigned char* back = NULL; ZSTD_CCtx* c; unsigned long long totIn = 0, totOut = 0; int doneFrames = 0; char buf[512]; char* sv = NULL; char* kv; static const char* const relName[] = { "none", "ldmwait", "fed", "timeout" };
+            g_perturb = atoi(strtok(NULL, " ")); g_pseed = (unsigned)strtoul(strtok(NULL, " "), NULL, 10); T = (size_t)strtoull(strtok(NULL, " "), NULL, 10); R = (size_t)strtoull(strtok(NULL, " "), NULL, 10); ypm = (size_t)strtoull(strtok(NULL, " "), NULL, 10); extra = (size_t)strtoull(strtok(NULL, " "), NULL, 10);
+            g_len = 0; if (g_buf) g_buf[0] = 0; g_nworkers = 0; g_mt = NULL; g_serial = NULL; g_inFrame = 0; memset(g_job, 0, sizeof g_job); t_rng = g_pseed * 31u + 7;
+            g_holdWrap = 1; g_hWhere = where; g_dJob = -1; g_dUs = holdUs; g_patient = 1; g_hRel = 0; g_callerLdmWait = 0; g_jobsEnded = 0; g_fed = 0; g_hFedLimit = ~0ULL;
+            watchdog(1);
+            c = ZSTD_createCCtx(); g_cctx = c;
+            ZSTD_CCtx_setParameter(c, ZSTD_c_nbWorkers, workers);
+            if (strcmp(spec, "-")) { strncpy(buf, spec, sizeof buf - 1); buf[sizeof buf - 1] = 0; for (kv = strtok_r(buf, ",", &sv); kv; kv = strtok_r(NULL, ",", &sv)) { int id, val; if (sscanf(kv, "%d=%d", &id, &val) == 2) ZSTD_CCtx_setParameter(c, (ZSTD_cParameter)id, val); } }
+            {   /* a call without input initialises the frame: the geometry of the round buffer is known before the input is built */
+                ZSTD_inBuffer ib; ZSTD_outBuffer ob; size_t r; ib.src = vbuf; ib.size = 0; ib.pos = 0; ob.dst = vbuf; ob.size = 0; ob.pos = 0;
+                r = ZSTD_compressStream2(c, &ob, &ib, ZSTD_e_continue);
+                if (ZSTD_isError(r)) { snprintf(vbuf, sizeof vbuf, "FAIL compressStream2 (initialisation): %s", ZSTD_getErrorName(r)); verdict = vbuf; }
+                else if (!c->mtctx || c->appliedParams.nbWorkers < 1) verdict = "FAIL no worker context after initialisation";
+                else { S = c->mtctx->targetSectionSize; P = c->mtctx->targetPrefixSize; K = S ? c->mtctx->roundBuff.capacity / S : 0; } }
+            if (!strcmp(verdict, "ok")) {
+                size_t i, j, y; h = (int)K - workers + hrel; if (h < 1) h = 1;
+                n = (K + 1 + extra) * S + (size_t)(seed % 70001); cap = ZSTD_compressBound(n) + 4096;
+                src = (unsigned char*)malloc(n); dst = (unsigned char*)malloc(cap); back = (unsigned char*)malloc(n);
+                rs = seed; for (i = 0; i < n; i++) src[i] = (unsigned char)rnd();
+                if (T > P) T = P; if (R > S / 4) R = S / 4; if (T > S / 8) T = S / 8;
+                j = (size_t)(h + where); y = T + (S / 2 - T - R) * (ypm % 1000) / 1000;
+                if (P > 0 && T > 0 && j >= 2 && j < K - 1) { plant(src, n, j * S + y, K * S, T, P, R); plant(src, n, j * S + S / 2 + y, (K + 1) * S, T, P + S, R); }
+                g_hFedLimit = (unsigned long long)(K + 1) * S; __atomic_store_n(&g_dJob, h, __ATOMIC_RELEASE);
+                {   size_t pos = 0, out = 0, r = 0; int calls = 0, ii = 0, oi = 0;
+                    for (;;) { ZSTD_inBuffer ib; ZSTD_outBuffer ob; size_t isz = ic[ii++ % ni], osz = oc[oi++ % no]; ZSTD_EndDirective dir;
+                        if (isz > n - pos) isz = n - pos; if (osz > cap - out) osz = cap - out; dir = (pos + isz == n) ? ZSTD_e_end : ZSTD_e_continue;
+                        ib.src = src + pos; ib.size = isz; ib.pos = 0; ob.dst = dst + out; ob.size = osz; ob.pos = 0;
+                        r = ZSTD_compressStream2(c, &ob, &ib, dir);
+                        if (ZSTD_isError(r)) { snprintf(vbuf, sizeof vbuf, "FAIL compressStream2: %s", ZSTD_getErrorName(r)); verdict = vbuf; break; }
+                        pos += ib.pos; out += ob.pos; calls++;
+                        __atomic_store_n(&g_fed, (unsigned long long)pos, __ATOMIC_RELAXED);     /* consumed so far */
+                        if (t_worker < 0) caller_sync();
+                        if (dir == ZSTD_e_end && r == 0) break;
+                        if (calls > 4000000) { verdict = "FAIL no termination"; break; } }
+                    caller_sync();
+                    if (!strcmp(verdict, "ok")) { ev("frameend\n"); g_inFrame = 0;
+                        if (!roundtrip(src, n, dst, out, back)) { size_t const dr = ZSTD_decompress(back, n, dst, out); snprintf(vbuf, sizeof vbuf, "FAIL round trip: %s", ZSTD_isError(dr) ? ZSTD_getErrorName(dr) : "bytes differ"); verdict = vbuf; }
+                        else if (roundtrip_declared(src, n, dst, out, back, vbuf, sizeof vbuf)) verdict = vbuf;
+                        else { totIn += n; totOut += out; doneFrames++; } } }
+            }
+            ZSTD_freeCCtx(c);
+            watchdog(0);
+            if (g_buf) fputs(g_buf, stdout);
+            printf("end %s frames=%d in=%llu out=%llu hold=%d where=%d rel=%s K=%zu S=%zu P=%zu\n", verdict, doneFrames, totIn, totOut, h, where, relName[__atomic_load_n(&g_hRel, __ATOMIC_RELAXED) & 3], K, S, P);
+            g_holdWrap = 0; g_dJob = -1; g_patient = 0; g_dUs = 0;
             free(src); free(dst); free(back);
         } else printf("bad-op\n");
         fflush(stdout);
